@@ -55,7 +55,7 @@ def broadcastable(a, b):
 
 def cases(tier, seed):
     rng = random.Random('C18|%d' % seed)
-    k = 4 if tier == 'quick' else 60
+    k = 10 if tier == 'quick' else 80
     cs = []
     # ---- binary elementwise ops: shape mismatch (tensor/tensor) --------------------------------------------------------
     for op in ('add', 'sub', 'mul', 'div', 'dot', 'hadamard'):
